@@ -11,6 +11,7 @@ import (
 	"go/constant"
 	"go/token"
 	"go/types"
+	"math"
 	"sort"
 	"strings"
 
@@ -291,6 +292,7 @@ type discharger struct {
 }
 
 func newDischarger(p *Prog) *discharger {
+	cgForBounds = p.CG()
 	d := &discharger{p: p, cg: p.CG(), memo: map[string]string{}, fieldStores: map[*types.Var][]*ssa.Store{}}
 	for _, fn := range p.Funcs {
 		allInstrs(fn, func(in ssa.Instruction) {
@@ -331,30 +333,257 @@ func relatedTo(g, v ssa.Value, depth int) bool {
 	if sameLoc(g, v) {
 		return true
 	}
-	unwrap := func(x ssa.Value) ssa.Value {
+	// v is a conversion of the guarded value (sign facts carry over between integer types of one width;
+	// arithmetic on the guarded value does not: v*k can wrap, v/k can become 0, v±k shifts the sign)
+	unwrapV := func(x ssa.Value) ssa.Value {
 		switch y := x.(type) {
 		case *ssa.Convert:
+			if sameWidthInts(y.X.Type(), y.Type()) {
+				return y.X
+			}
+		case *ssa.ChangeType:
 			return y.X
+		}
+		return nil
+	}
+	// the guard is on an expression computed from v: g = v/k > 0 (k > 0) implies v > 0
+	unwrapG := func(x ssa.Value) ssa.Value {
+		switch y := x.(type) {
+		case *ssa.Convert:
+			if sameWidthInts(y.X.Type(), y.Type()) {
+				return y.X
+			}
 		case *ssa.ChangeType:
 			return y.X
 		case *ssa.BinOp:
-			if _, ok := y.Y.(*ssa.Const); ok && (y.Op == token.MUL || y.Op == token.QUO || y.Op == token.ADD || y.Op == token.SUB) {
+			if k, ok := constInt(y.Y); ok && k > 0 && y.Op == token.QUO {
 				return y.X
-			}
-			if _, ok := y.X.(*ssa.Const); ok && y.Op == token.MUL {
-				return y.Y
 			}
 		}
 		return nil
 	}
-	if w := unwrap(v); w != nil && relatedTo(g, w, depth+1) {
+	if w := unwrapV(v); w != nil && relatedTo(g, w, depth+1) {
 		return true
 	}
-	if w := unwrap(g); w != nil && relatedTo(w, v, depth+1) {
+	if w := unwrapG(g); w != nil && relatedTo(w, v, depth+1) {
 		return true
 	}
 	return false
 }
+
+// sameWidthInts: both are integer types of the same size (a conversion keeps x != 0; it keeps the sign
+// facts the guards establish as long as the source is known non-negative).
+func sameWidthInts(a, b types.Type) bool {
+	ba, ok1 := a.Underlying().(*types.Basic)
+	bb, ok2 := b.Underlying().(*types.Basic)
+	if !ok1 || !ok2 || ba.Info()&types.IsInteger == 0 || bb.Info()&types.IsInteger == 0 {
+		return false
+	}
+	return intBits(ba) == intBits(bb)
+}
+
+func intBits(b *types.Basic) int {
+	switch b.Kind() {
+	case types.Int8, types.Uint8:
+		return 8
+	case types.Int16, types.Uint16:
+		return 16
+	case types.Int32, types.Uint32:
+		return 32
+	}
+	return 64
+}
+
+// upperBound: a constant C with v <= C at `at`, from the value's type or from a dominating comparison.
+func upperBound(fn *ssa.Function, at ssa.Instruction, v ssa.Value, depth int) (int64, bool) {
+	if depth > 4 {
+		return 0, false
+	}
+	if c, ok := constInt(v); ok {
+		return c, true
+	}
+	if b, ok := v.Type().Underlying().(*types.Basic); ok && b.Info()&types.IsInteger != 0 {
+		switch b.Kind() {
+		case types.Int8:
+			return 1<<7 - 1, true
+		case types.Uint8:
+			return 1<<8 - 1, true
+		case types.Int16:
+			return 1<<15 - 1, true
+		case types.Uint16:
+			return 1<<16 - 1, true
+		case types.Int32:
+			return 1<<31 - 1, true
+		case types.Uint32:
+			return 1<<32 - 1, true
+		}
+	}
+	for _, b := range fn.Blocks {
+		ifi, ok := b.Instrs[len(b.Instrs)-1].(*ssa.If)
+		if !ok {
+			continue
+		}
+		cond, neg := negStrip(ifi.Cond)
+		bo, ok := cond.(*ssa.BinOp)
+		if !ok {
+			continue
+		}
+		var cv int64
+		var left bool
+		var g ssa.Value
+		if c, ok := constInt(bo.Y); ok {
+			cv, left, g = c, true, bo.X
+		} else if c, ok := constInt(bo.X); ok {
+			cv, left, g = c, false, bo.Y
+		} else {
+			continue
+		}
+		// the comparison may be written on a same-width conversion of the value: int64(x) > max
+		for {
+			cvt, ok := g.(*ssa.Convert)
+			if !ok || !sameWidthInts(cvt.X.Type(), cvt.Type()) {
+				break
+			}
+			g = cvt.X
+		}
+		if !sameLoc(g, v) {
+			continue
+		}
+		for si := 0; si < 2; si++ {
+			if !edgeDominatesNoFatal(b, b.Succs[si], at.Block()) {
+				continue
+			}
+			op := bo.Op
+			if !left {
+				op = flipRel(op)
+			}
+			if ((si == 0) != neg) == false {
+				op = negRel(op)
+			}
+			// now: v op cv holds
+			switch op {
+			case token.LEQ, token.EQL:
+				return cv, true
+			case token.LSS:
+				return cv - 1, true
+			}
+		}
+	}
+	if cv, ok := v.(*ssa.Convert); ok && sameWidthInts(cv.X.Type(), cv.Type()) {
+		// a bound below 2^63 on the source carries over (for a signed source it must also be non-negative,
+		// which the caller establishes separately through the sign requirement)
+		return upperBound(fn, at, cv.X, depth+1)
+	}
+	if bo, ok := v.(*ssa.BinOp); ok && bo.Op == token.QUO {
+		if k, ok := constInt(bo.Y); ok && k > 0 {
+			if ub, ok := upperBound(fn, at, bo.X, depth+1); ok {
+				return ub / k, true
+			}
+			if _, uns := isIntType(bo.X.Type()); !uns {
+				return math.MaxInt64 / k, true
+			}
+		}
+	}
+	if par, ok := v.(*ssa.Parameter); ok && par.Parent() != nil {
+		pf := par.Parent()
+		idx := -1
+		for i, p := range pf.Params {
+			if p == par {
+				idx = i
+			}
+		}
+		best, n := int64(0), 0
+		for _, e := range cgOf(pf).In[pf] {
+			if e.Kind == EdgeRef {
+				continue
+			}
+			cc := callCommon(e.Site)
+			if cc == nil || cc.IsInvoke() || idx >= len(cc.Args) || cc.StaticCallee() != pf {
+				return 0, false
+			}
+			ub, ok := upperBound(e.Caller, e.Site, cc.Args[idx], depth+1)
+			if !ok {
+				return 0, false
+			}
+			if ub > best {
+				best = ub
+			}
+			n++
+		}
+		return best, n > 0
+	}
+	return 0, false
+}
+
+// lowerBound: a constant C with v >= C at `at`, from a dominating comparison with a constant.
+func lowerBound(fn *ssa.Function, at ssa.Instruction, v ssa.Value) (int64, bool) {
+	if c, ok := constInt(v); ok {
+		return c, true
+	}
+	best, found := int64(0), false
+	for _, b := range fn.Blocks {
+		ifi, ok := b.Instrs[len(b.Instrs)-1].(*ssa.If)
+		if !ok {
+			continue
+		}
+		cond, neg := negStrip(ifi.Cond)
+		bo, ok := cond.(*ssa.BinOp)
+		if !ok {
+			continue
+		}
+		var cv int64
+		var left bool
+		var g ssa.Value
+		if c, ok := constInt(bo.Y); ok {
+			cv, left, g = c, true, bo.X
+		} else if c, ok := constInt(bo.X); ok {
+			cv, left, g = c, false, bo.Y
+		} else {
+			continue
+		}
+		// the comparison may be written on a same-width conversion of the value: int64(x) > max
+		for {
+			cvt, ok := g.(*ssa.Convert)
+			if !ok || !sameWidthInts(cvt.X.Type(), cvt.Type()) {
+				break
+			}
+			g = cvt.X
+		}
+		if !sameLoc(g, v) {
+			continue
+		}
+		for si := 0; si < 2; si++ {
+			if !edgeDominatesNoFatal(b, b.Succs[si], at.Block()) {
+				continue
+			}
+			op := bo.Op
+			if !left {
+				op = flipRel(op)
+			}
+			if ((si == 0) != neg) == false {
+				op = negRel(op)
+			}
+			// now: v op cv holds
+			var lb int64
+			switch op {
+			case token.GEQ, token.EQL:
+				lb = cv
+			case token.GTR:
+				lb = cv + 1
+			default:
+				continue
+			}
+			if !found || lb > best {
+				best, found = lb, true
+			}
+		}
+	}
+	return best, found
+}
+
+var cgForBounds *CallGraph
+
+func cgOf(fn *ssa.Function) *CallGraph { return cgForBounds }
 
 // impliedBy: does taking edge `taken` of a comparison `x REL c` establish `need` for x?
 func edgeEstablishes(op token.Token, c int64, valueOnLeft bool, taken bool, nd need, unsigned bool) bool {
@@ -571,15 +800,75 @@ func (d *discharger) validated(fn *ssa.Function, at ssa.Instruction, v ssa.Value
 	}
 	switch x := v.(type) {
 	case *ssa.Convert:
+		sb, ok1 := x.X.Type().Underlying().(*types.Basic)
+		db, ok2 := x.Type().Underlying().(*types.Basic)
+		if ok1 && ok2 && sb.Info()&types.IsInteger != 0 && db.Info()&types.IsInteger != 0 {
+			srcUns, dstUns := sb.Info()&types.IsUnsigned != 0, db.Info()&types.IsUnsigned != 0
+			sbits, dbits := intBits(sb), intBits(db)
+			if dstUns && nd == needNonNeg {
+				return true
+			}
+			if srcUns && !dstUns && dbits > sbits && nd == needNonNeg {
+				return true // widening an unsigned value
+			}
+			narrowing := dbits < sbits
+			signFlip := srcUns && !dstUns && dbits <= sbits && nd != needNonZero
+			if narrowing || signFlip {
+				maxDst := int64(math.MaxInt64)
+				if dbits < 64 {
+					maxDst = int64(1)<<(uint(dbits)-1) - 1
+					if dstUns {
+						maxDst = int64(1)<<uint(dbits) - 1
+					}
+				}
+				ub, ok := upperBound(fn, at, x.X, 0)
+				if !ok || ub > maxDst {
+					*trail = append(*trail, fmt.Sprintf("%s is converted to %s without an upper bound: large values wrap around (at %s)", describeVal(x.X), x.Type(), d.p.InstrPos(x)))
+					return false
+				}
+			}
+		}
 		return d.validated(fn, at, x.X, nd, depth+1, trail)
 	case *ssa.ChangeType:
 		return d.validated(fn, at, x.X, nd, depth+1, trail)
 	case *ssa.BinOp:
-		if c, ok := constInt(x.Y); ok && c > 0 && x.Op == token.MUL {
-			return d.validated(fn, at, x.X, nd, depth+1, trail)
+		if x.Op == token.MUL {
+			var k int64
+			var opnd ssa.Value
+			if c, ok := constInt(x.Y); ok && c > 0 {
+				k, opnd = c, x.X
+			} else if c, ok := constInt(x.X); ok && c > 0 {
+				k, opnd = c, x.Y
+			}
+			if opnd != nil {
+				// the product keeps the sign facts of the operand only if it cannot wrap around
+				ub, ok := upperBound(fn, at, opnd, 0)
+				limit := math.MaxInt64 / k
+				if nd == needNonZero {
+					// the product is 0 (mod 2^64) only for a multiple of 2^64/gcd(k, 2^64)
+					pow := int64(1)
+					for kk := k; kk%2 == 0; kk /= 2 {
+						pow *= 2
+					}
+					limit = math.MaxInt64/pow*2 + 1 // 2^64/pow − 1, saturated
+					if pow == 1 {
+						limit = math.MaxInt64
+					}
+				}
+				if !ok || ub < 0 || ub > limit {
+					*trail = append(*trail, fmt.Sprintf("%s is multiplied by %d without an upper bound: the product can wrap around to 0 or a negative value (at %s)", describeVal(opnd), k, d.p.InstrPos(x)))
+					return false
+				}
+				return d.validated(fn, at, opnd, nd, depth+1, trail)
+			}
 		}
-		if c, ok := constInt(x.X); ok && c > 0 && x.Op == token.MUL {
-			return d.validated(fn, at, x.Y, nd, depth+1, trail)
+		if k, ok := constInt(x.Y); ok && k > 0 && x.Op == token.QUO && nd != needNonNeg {
+			// x/k > 0 exactly when x >= k
+			if lb, ok := lowerBound(fn, at, x.X); ok && lb >= k {
+				*trail = append(*trail, fmt.Sprintf("%s >= %d established before the division by %d in %s", describeVal(x.X), lb, k, FuncName(fn)))
+				return true
+			}
+			return false
 		}
 		if x.Op == token.QUO && nd == needNonNeg {
 			return d.validated(fn, at, x.X, needNonNeg, depth+1, trail) && d.validated(fn, at, x.Y, needPos, depth+1, trail)
